@@ -3,6 +3,7 @@ import SphericalVerif.Props.HKernel
 import SphericalVerif.Props.GenH
 import SphericalVerif.Props.GenFill
 import SphericalVerif.Props.Footprint
+import SphericalVerif.Props.GenMethod
 #print axioms C17.objDvec_eq_map
 #print axioms C17.objYvec_eq_map
 #print axioms C17.objDvec_getElem
@@ -39,3 +40,27 @@ import SphericalVerif.Props.Footprint
 #print axioms Footprint.rotH_only
 #print axioms Footprint.wigner_H_only
 #print axioms Footprint.gen_D_chain_inplace
+#print axioms GenMethod.cpow_one
+#print axioms GenMethod.half_double
+#print axioms GenMethod.D_rotor_eq
+#print axioms GenMethod.frdC_after_H
+#print axioms GenMethod.sYlm_rotor_eq
+#print axioms GenMethod.evaluate_rotor_eq
+#print axioms GenMethod.rotate_rotor_eq
+#print axioms GenMethod.D_rotor_only
+#print axioms GenMethod.sYlm_rotor_only
+#print axioms GenMethod.evaluate_rotor_only
+#print axioms GenMethod.rotate_rotor_only
+#print axioms GenMethod.loop_keeps
+#print axioms GenMethod.loop_keepsC
+#print axioms GenMethod.D_rotor_pure
+#print axioms GenMethod.D_loop_row
+#print axioms GenMethod.sYlm_rotor_pure
+#print axioms GenMethod.sYlm_loop_row
+#print axioms GenMethod.evaluate_rotor_pure
+#print axioms GenMethod.evaluate_loop_col
+#print axioms GenMethod.rotate_rotor_pure
+#print axioms GenMethod.D_rotor_doc
+#print axioms GenMethod.sYlm_rotor_doc
+#print axioms GenMethod.evaluate_rotor_doc
+#print axioms GenMethod.rotate_rotor_doc
